@@ -819,3 +819,7 @@ impl InstrFormat for StdHooks10 {
         Ok(())
     }
 }
+
+#[cfg(kani)]
+#[path = "/verif/contracts/kani/std.rs"]
+mod verif_kani;
